@@ -21,7 +21,9 @@ from .. import core, tlaval
 from ..midi import TYPES
 from . import c01, c03, c07, c09
 
-TIMES = [0, -3, 0.5, 1e-05, 10 ** 30, 123456.789, -2.5e-07, 3]
+TIMES = [0, -3, 0.5, 1e-05, 10 ** 30, 123456.789, -2.5e-07, 3,
+         # floats whose shortest repr needs an exponent or many decimals
+         1e-16, 5e-324, 1.2345678901234567e-05, -9.87654321e-11, 1e22, 1.7976931348623157e308, 0.1 + 0.2]
 
 
 def tok_text(tok):
@@ -273,6 +275,29 @@ def meta_worker(lines):
     return res
 
 
+def check_default_metas():
+    """Every meta type built without arguments (all attributes at their documented
+    defaults), and with only a time: eval(repr(x)) == x, also inside a track and a file."""
+    import mido
+    from mido.midifiles.meta import _META_SPEC_BY_TYPE
+    out = []
+    for t in sorted(_META_SPEC_BY_TYPE):
+        for kw in ({}, {'time': 7}):
+            try:
+                m = mido.MetaMessage(t, **kw)
+                b = eval_repr(m)
+                tr = mido.MidiTrack([m, m.copy()])
+                tb = eval_repr(tr)
+                ok = (b == m) and type(b) is type(m) and list(tb) == list(tr) and \
+                    (mido.MetaMessage.from_bytes(m.bytes()) == m.copy(time=0))
+            except Exception as e:
+                out.append(('roundtrip/repr/default-meta-' + t, 'default %s: %r' % (t, e)))
+                continue
+            if not ok:
+                out.append(('roundtrip/repr/default-meta-' + t, 'eval(%r) = %r' % (repr(m), b)))
+    return out[:4]
+
+
 def file_worker(lines):
     import mido
     res = {'n': 0, 'viol': [], 'samples': [], 'counts': {'tracks_len0': 0, 'tracks_len1': 0, 'tracks_len2+': 0}}
@@ -312,6 +337,9 @@ def file_worker(lines):
 
 
 def replay(case):
+    if case.get('kind') == 'default_metas':
+        v = check_default_metas()
+        return v and '%s: %s' % v[0]
     import mido
     if 'row' in case and case['row'][0] in ('line', 'render', 'stream'):
         row = case['row']
@@ -433,6 +461,9 @@ CHECK_DEADLOCK FALSE
         'MidiFile defines no __eq__: files are compared structurally (class, type, ticks_per_beat, tracks)',
         'duplicated attributes in a line are not generated (their status is left open); times are finite',
     ]
+    for key, msg in check_default_metas():
+        ctx.violation('text/' + key, {'kind': 'default_metas'}, msg)
+    ctx.replayed += 40
     # re-entrancy: two threads inside these functions at once, a switch possible before every statement
     from .. import conc
     conc.run_scenarios(ctx, 'C14', 2 if ctx.tier == 'thorough' else 1)
